@@ -33,9 +33,38 @@ def _const_seq(e: ast.expr, consts: dict[str, ast.expr]) -> list[ast.expr] | Non
     return None
 
 
+_NT: dict[str, list[tuple[str, ast.expr | None]]] = {}     # NamedTuple / frozen record classes: name -> [(field, default)]
+
+
+def _nt_fields(e: ast.expr) -> dict[str, ast.expr] | None:
+    """e is a construction `R(a, b, k=c)` of a NamedTuple class with simple arguments: field -> argument."""
+    if not (isinstance(e, ast.Call) and isinstance(e.func, ast.Name) and e.func.id in _NT):
+        return None
+    fields = _NT[e.func.id]
+    if len(e.args) > len(fields) or any(isinstance(a, ast.Starred) for a in e.args) or any(k.arg is None for k in e.keywords):
+        return None
+    out: dict[str, ast.expr] = {}
+    for (nm, _d), a in zip(fields, e.args):
+        out[nm] = a
+    for k in e.keywords:
+        if k.arg in out or k.arg not in {f for f, _ in fields}:
+            return None
+        out[k.arg] = k.value
+    for nm, d in fields:
+        if nm not in out:
+            if d is None:
+                return None
+            out[nm] = d
+    if not all(_simple(v) for v in out.values()):
+        return None
+    return out
+
+
 def _simple(e: ast.expr) -> bool:
     if isinstance(e, ast.Constant):
         return True
+    if isinstance(e, ast.Call):
+        return _nt_fields(e) is not None
     if isinstance(e, ast.Name):
         return True
     if isinstance(e, ast.Attribute):
@@ -138,6 +167,14 @@ class _Fold(ast.NodeTransformer):
                 return ast.copy_location(ast.Constant(value=bool(v)), n)
         return n
 
+    def visit_Attribute(self, n: ast.Attribute) -> ast.AST:  # noqa: N802
+        self.generic_visit(n)
+        if isinstance(n.ctx, ast.Load) and isinstance(n.value, ast.Call):
+            fl = _nt_fields(n.value)
+            if fl is not None and n.attr in fl:
+                return ast.copy_location(copy.deepcopy(fl[n.attr]), n)
+        return n
+
     def visit_IfExp(self, n: ast.IfExp) -> ast.AST:  # noqa: N802
         self.generic_visit(n)
         if isinstance(n.test, ast.Constant) and isinstance(n.test.value, bool):
@@ -158,6 +195,31 @@ _TABLES: dict[str, ast.Dict] = {}
 def set_tables(trees: list[ast.Module]) -> None:
     """Module- and class-level names bound once to a dict literal with constant keys (dispatch tables)."""
     _TABLES.clear()
+    _NT.clear()
+    seen_cls: dict[str, int] = {}
+    for tree in trees:
+        for c in tree.body:
+            if isinstance(c, ast.ClassDef):
+                seen_cls[c.name] = seen_cls.get(c.name, 0) + 1
+                if len(c.bases) == 1 and (getattr(c.bases[0], 'id', None) == 'NamedTuple' or getattr(c.bases[0], 'attr', None) == 'NamedTuple') and not c.decorator_list:
+                    fields: list[tuple[str, ast.expr | None]] = []
+                    plain = True
+                    for st in c.body:
+                        if isinstance(st, ast.AnnAssign) and isinstance(st.target, ast.Name):
+                            fields.append((st.target.id, st.value if st.value is None or _simple(st.value) else None))
+                            if st.value is not None and not _simple(st.value):
+                                plain = False
+                        elif isinstance(st, ast.Expr) and isinstance(st.value, ast.Constant):
+                            continue
+                        elif isinstance(st, ast.Pass):
+                            continue
+                        else:
+                            plain = False      # methods / properties: attribute access may not be a field read
+                    if plain and fields:
+                        _NT[c.name] = fields
+    for nm, k in seen_cls.items():
+        if k > 1:
+            _NT.pop(nm, None)
     count: dict[str, int] = {}
     val: dict[str, ast.Dict] = {}
     for tree in trees:
@@ -289,11 +351,175 @@ def _const_prop(fn: ast.AST, keep: set[str] | None = None) -> None:
             blk[:] = keep or [ast.copy_location(ast.Pass(), blk[0])]
 
 
+_AMBIG = -1
+_MUTABLE: set[str] = {'*'}
+
+
+def _split_versions(fn: ast.AST, keep: set[str] | None = None) -> bool:
+    """N18: a local that is re-bound several times by plain assignments in straight-line / if-structured code (never in
+    a loop, try or with) is split into one name per binding when every read is reached by exactly one binding.  The
+    program is the same; single-assignment locals are what N5/N8/N16 can then resolve (an unrolled table loop
+    re-binds its temporaries once per row)."""
+    if not isinstance(fn, (ast.FunctionDef, ast.AsyncFunctionDef)):
+        return False
+    own = list(_own_nodes(fn))
+    a_ = fn.args
+    params = {x.arg for x in a_.posonlyargs + a_.args + a_.kwonlyargs} | ({a_.vararg.arg} if a_.vararg else set()) | ({a_.kwarg.arg} if a_.kwarg else set())
+    nested = {x.id for n in own if isinstance(n, (ast.FunctionDef, ast.AsyncFunctionDef, ast.ClassDef, ast.Lambda, ast.ListComp, ast.SetComp, ast.DictComp, ast.GeneratorExp))
+              for x in ast.walk(n) if isinstance(x, ast.Name)}
+    glob = {nm for n in own if isinstance(n, (ast.Global, ast.Nonlocal)) for nm in n.names}
+    nstores: dict[str, int] = {}
+    for n in own:
+        if isinstance(n, ast.Name) and isinstance(n.ctx, (ast.Store, ast.Del)):
+            nstores[n.id] = nstores.get(n.id, 0) + 1
+    cand = {x for x, k in nstores.items() if k >= 2} - params - nested - glob - set(keep or ())
+    if not cand:
+        return False
+    # every store is the single Name target of an Assign, or the target of an AugAssign; nothing inside loop / try / with
+    ok_store: set[int] = set()
+    for n in own:
+        if isinstance(n, ast.Assign) and len(n.targets) == 1 and isinstance(n.targets[0], ast.Name):
+            ok_store.add(id(n.targets[0]))
+        elif isinstance(n, ast.AugAssign) and isinstance(n.target, ast.Name):
+            ok_store.add(id(n.target))
+    for n in own:
+        if isinstance(n, ast.Name) and isinstance(n.ctx, (ast.Store, ast.Del)) and id(n) not in ok_store:
+            cand.discard(n.id)
+
+    def ban(block: list[ast.stmt], inside: bool) -> None:
+        for st in block:
+            hard = inside or isinstance(st, (ast.For, ast.AsyncFor, ast.While, ast.Try, ast.With, ast.AsyncWith)) or type(st).__name__ in ('Match', 'TryStar')
+            if hard:
+                for x in ast.walk(st):
+                    if isinstance(x, ast.Name):
+                        cand.discard(x.id)
+            elif isinstance(st, ast.If):
+                ban(st.body, False)
+                ban(st.orelse, False)
+    ban(fn.body, False)
+    if not cand:
+        return False
+    counter: dict[str, int] = {x: 0 for x in cand}
+    renames: list[tuple[ast.Name, str, int]] = []
+    failed: set[str] = set()
+
+    def use(e: ast.AST, env: dict[str, int]) -> None:
+        for x in ast.walk(e):
+            if isinstance(x, ast.Name) and x.id in cand and isinstance(x.ctx, ast.Load):
+                v = env.get(x.id)
+                if v is None or v == _AMBIG:
+                    failed.add(x.id)
+                else:
+                    renames.append((x, x.id, v))
+
+    def walk(block: list[ast.stmt], env: dict[str, int]) -> tuple[dict[str, int], bool]:
+        for st in block:
+            if isinstance(st, ast.Assign) and len(st.targets) == 1 and isinstance(st.targets[0], ast.Name) and st.targets[0].id in cand:
+                use(st.value, env)
+                x = st.targets[0].id
+                counter[x] += 1
+                env[x] = counter[x]
+                renames.append((st.targets[0], x, counter[x]))
+            elif isinstance(st, ast.AugAssign) and isinstance(st.target, ast.Name) and st.target.id in cand:
+                use(st.value, env)
+                v = env.get(st.target.id)
+                if v is None or v == _AMBIG:
+                    failed.add(st.target.id)
+                else:
+                    renames.append((st.target, st.target.id, v))
+            elif isinstance(st, ast.If):
+                use(st.test, env)
+                e1, t1 = walk(st.body, dict(env))
+                e2, t2 = walk(st.orelse, dict(env))
+                if t1 and t2:
+                    return env, True
+                if t1:
+                    env = e2
+                elif t2:
+                    env = e1
+                else:
+                    env = {x: (e1.get(x) if e1.get(x) == e2.get(x) else _AMBIG) for x in set(e1) | set(e2)}
+            else:
+                use(st, env)
+                if isinstance(st, (ast.Return, ast.Raise, ast.Continue, ast.Break)):
+                    return env, True
+        return env, False
+    walk(fn.body, {})
+    done = False
+    for node, x, v in renames:
+        if x not in failed and counter[x] >= 2 and v >= 2:
+            node.id = f'{x}__{v}'
+            done = True
+    return done
+
+
+def _collapse_rmw(fn: ast.AST, keep: set[str] | None = None) -> bool:
+    """N19: `t = L; t op= e; L = t` (t a temporary used nowhere else, L an attribute or subscript) is `L op= e`:
+    the same load, in-place operator and store that the augmented assignment to L performs."""
+    if not isinstance(fn, (ast.FunctionDef, ast.AsyncFunctionDef)):
+        return False
+    occ: dict[str, int] = {}
+    for n in ast.walk(fn):
+        if isinstance(n, ast.Name):
+            occ[n.id] = occ.get(n.id, 0) + 1
+    done = False
+    for _owner, blk in list(_blocks(fn)):
+        k = 0
+        while k + 2 < len(blk):
+            a, b, c = blk[k], blk[k + 1], blk[k + 2]
+            k += 1
+            if not (isinstance(a, ast.Assign) and len(a.targets) == 1 and isinstance(a.targets[0], ast.Name) and isinstance(a.value, (ast.Attribute, ast.Subscript))):
+                continue
+            t = a.targets[0].id
+            if t in (keep or ()) or occ.get(t) != 3:
+                continue
+            if not (isinstance(b, ast.AugAssign) and isinstance(b.target, ast.Name) and b.target.id == t and not any(isinstance(x, ast.Name) and x.id == t for x in ast.walk(b.value))):
+                continue
+            if not (isinstance(c, ast.Assign) and len(c.targets) == 1 and isinstance(c.value, ast.Name) and c.value.id == t
+                    and isinstance(c.targets[0], (ast.Attribute, ast.Subscript)) and ast.unparse(c.targets[0]) == ast.unparse(a.value)):
+                continue
+            if any(isinstance(x, (ast.Call, ast.Await, ast.NamedExpr)) for x in ast.walk(a.value)):
+                continue
+            new = ast.copy_location(ast.AugAssign(target=c.targets[0], op=b.op, value=b.value), a)
+            blk[k - 1:k + 2] = [new]
+            done = True
+    return done
+
+
+def refresh_mutable(trees: dict[str, ast.Module]) -> bool:
+    """After the structural steps a computed attribute name (`setattr(o, name, v)` in a table loop) may have become
+    a constant one; the write-once fields are then known and N5 runs once more with them."""
+    global _MUTABLE
+    m2 = mutable_attrs(list(trees.values()))
+    if '*' in _MUTABLE and '*' not in m2:
+        _MUTABLE = m2
+        from kfv import localnames
+        inv = localnames.table()
+        for modname, tree in trees.items():
+            fns = [(f'{modname}.{n.name}', n) for n in tree.body if isinstance(n, (ast.FunctionDef, ast.AsyncFunctionDef))] + \
+                  [(f'{modname}.{c.name}.{m.name}', m) for c in tree.body if isinstance(c, ast.ClassDef) for m in c.body if isinstance(m, (ast.FunctionDef, ast.AsyncFunctionDef))]
+            for q, fn in fns:
+                keep = {k[0] for k in inv.get(q, [])} | {k[0] for qq, v in inv.items() if qq.startswith(q + '.<locals>.') for k in v}
+                copy_prop_function(fn, keep)
+        return True
+    _MUTABLE = m2 if '*' not in m2 else _MUTABLE
+    return False
+
+
+def copy_prop_function(fn: ast.AST, keep: set[str] | None = None) -> None:
+    """N5 on one function (used again by the inliner after a helper was expanded into it)."""
+    for _owner, blk in _blocks(fn):
+        _copy_prop(blk, _MUTABLE, getattr(fn, 'name', '') == '__init__', keep)
+    _drop_dead_copies(fn, keep)
+
+
 def _fold(fn: ast.AST, keep: set[str] | None = None) -> None:
     if _TABLES:
         _Tables().visit(fn)
     _split_tuple_assigns(fn)
     if isinstance(fn, (ast.FunctionDef, ast.AsyncFunctionDef)):
+        if _split_versions(fn, keep):
+            fn._kfv_resplit = True  # type: ignore[attr-defined]
         _const_prop(fn, keep)
     _Fold().visit(fn)
     # N13: `if True/False:` left by the folding keeps only the live branch
@@ -317,6 +543,7 @@ def _fold(fn: ast.AST, keep: set[str] | None = None) -> None:
                 o, key, v = st.value.args
                 tgt = ast.copy_location(ast.Attribute(value=o, attr=key.value, ctx=ast.Store()), st.value)
                 blk[k] = ast.copy_location(ast.Assign(targets=[tgt], value=v, lineno=st.lineno), st)
+    _collapse_rmw(fn, keep)
 
 
 def _root_name(e: ast.AST) -> str | None:
@@ -450,6 +677,34 @@ def _blocks(node: ast.AST):  # noqa: ANN202
                 yield h, h.body
 
 
+def _negate(t: ast.expr) -> ast.expr:
+    inv = {ast.Is: ast.IsNot, ast.IsNot: ast.Is, ast.Eq: ast.NotEq, ast.NotEq: ast.Eq, ast.In: ast.NotIn, ast.NotIn: ast.In,
+           ast.Lt: ast.GtE, ast.GtE: ast.Lt, ast.Gt: ast.LtE, ast.LtE: ast.Gt}
+    if isinstance(t, ast.UnaryOp) and isinstance(t.op, ast.Not):
+        return t.operand
+    if isinstance(t, ast.Compare) and len(t.ops) == 1 and type(t.ops[0]) in inv and not isinstance(t.ops[0], (ast.Lt, ast.GtE, ast.Gt, ast.LtE)):
+        return ast.copy_location(ast.Compare(left=t.left, ops=[inv[type(t.ops[0])]()], comparators=t.comparators), t)
+    return ast.copy_location(ast.UnaryOp(op=ast.Not(), operand=t), t)
+
+
+def _continue_to_nest(body: list[ast.stmt]) -> list[ast.stmt] | None:
+    """`if c: continue` guard clauses at the top level of a loop body -> `if not c: <rest>`; None when the body has
+    any other jump."""
+    out = list(body)
+    k = len(out) - 1
+    while k >= 0:
+        st = out[k]
+        if isinstance(st, ast.If) and not st.orelse and len(st.body) == 1 and isinstance(st.body[0], ast.Continue):
+            rest = out[k + 1:]
+            if rest:
+                nest = ast.copy_location(ast.If(test=_negate(st.test), body=rest, orelse=[]), st)
+                out = out[:k] + [nest]
+            else:
+                out = out[:k]
+        k -= 1
+    return None if _has_jump(out) or not out else out
+
+
 def _unroll(fn: ast.AST, consts: dict[str, ast.expr], log: list[str]) -> None:
     changed = True
     rounds = 0
@@ -462,6 +717,10 @@ def _unroll(fn: ast.AST, consts: dict[str, ast.expr], log: list[str]) -> None:
             i = 0
             while i < len(blk):
                 st = blk[i]
+                if isinstance(st, ast.For) and not st.orelse and _has_jump(st.body) and _const_seq(st.iter, consts) is not None:
+                    nb = _continue_to_nest(st.body)
+                    if nb is not None:
+                        st.body = nb
                 if isinstance(st, ast.For) and not st.orelse and not _has_jump(st.body):
                     seq = _const_seq(st.iter, consts)
                     tnames = [n.id for n in ast.walk(st.target) if isinstance(n, ast.Name)]
@@ -564,8 +823,53 @@ def _drop_else(fn: ast.AST) -> None:
     fix(fn.body)  # type: ignore[attr-defined]
 
 
+def _next_to_loop(fn: ast.AST, log: list[str]) -> None:
+    """N17: `x = next((e for t in it if c), None); if x is None: <raise>; return x` is the search loop
+    `for t in it: if c: return e` followed by the raise (first match, else the failure)."""
+    for _owner, blk in _blocks(fn):
+        k = 0
+        while k + 2 < len(blk) + 0:
+            a, b, c = blk[k], blk[k + 1], blk[k + 2]
+            k += 1
+            if not (isinstance(a, ast.Assign) and len(a.targets) == 1 and isinstance(a.targets[0], ast.Name)):
+                continue
+            x = a.targets[0].id
+            v = a.value
+            if not (isinstance(v, ast.Call) and isinstance(v.func, ast.Name) and v.func.id == 'next' and len(v.args) == 2 and not v.keywords
+                    and isinstance(v.args[0], ast.GeneratorExp) and isinstance(v.args[1], ast.Constant) and v.args[1].value is None):
+                continue
+            gen = v.args[0]
+            if len(gen.generators) != 1 or gen.generators[0].is_async or not gen.generators[0].ifs:
+                continue
+            g = gen.generators[0]
+            tnames = {n.id for n in ast.walk(g.target) if isinstance(n, ast.Name)}
+            if not all(tnames & {n.id for n in ast.walk(i) if isinstance(n, ast.Name)} for i in g.ifs):
+                continue
+            if not (isinstance(b, ast.If) and not b.orelse and isinstance(b.test, ast.Compare) and len(b.test.ops) == 1 and isinstance(b.test.ops[0], ast.Is)
+                    and isinstance(b.test.left, ast.Name) and b.test.left.id == x and isinstance(b.test.comparators[0], ast.Constant) and b.test.comparators[0].value is None
+                    and b.body and isinstance(b.body[-1], ast.Raise)):
+                continue
+            if not (isinstance(c, ast.Return) and isinstance(c.value, ast.Name) and c.value.id == x):
+                continue
+            if any(isinstance(n, ast.Name) and n.id == x for st in b.body for n in ast.walk(st)):
+                continue
+            test = g.ifs[0] if len(g.ifs) == 1 else ast.BoolOp(op=ast.And(), values=list(g.ifs))
+            loop = ast.For(target=g.target, iter=g.iter, body=[ast.If(test=test, body=[ast.Return(value=gen.elt)], orelse=[])], orelse=[], type_comment=None)
+            for n in ast.walk(g.target):
+                if isinstance(n, ast.Name):
+                    n.ctx = ast.Store()
+            ast.copy_location(loop, a)
+            ast.copy_location(loop.body[0], a)
+            ast.copy_location(loop.body[0].body[0], a)
+            blk[k - 1:k + 2] = [loop] + b.body
+            ast.fix_missing_locations(loop)
+            log.append(f'{getattr(fn, "name", "?")}: next(generator, None) search rewritten as the equivalent loop')
+
+
 def run(tree: ast.Module, mutable: set[str] | None = None, modname: str = '') -> tuple[ast.Module, list[str]]:
     mutable = {'*'} if mutable is None else mutable
+    global _MUTABLE
+    _MUTABLE = mutable
     log: list[str] = []
     consts = _module_consts(tree)
     for fn in [n for n in ast.walk(tree) if isinstance(n, (ast.FunctionDef, ast.AsyncFunctionDef))]:
@@ -584,11 +888,23 @@ def run(tree: ast.Module, mutable: set[str] | None = None, modname: str = '') ->
         # locals the inventory knows by name are part of the shape the rules expect: never substituted away
         keep = {k[0] for k in inv.get(q, [])} | {k[0] for qq, v in inv.items() if qq.startswith(q + '.<locals>.') for k in v}
         _drop_logging(fn)
+        n0 = len(log)
+        _next_to_loop(fn, log)
         _drop_else(fn)
         _unroll(fn, consts, log)
         _fold(fn, keep)
         for _owner, blk in _blocks(fn):
             _copy_prop(blk, mutable, fn.name == '__init__', keep)
         _drop_dead_copies(fn, keep)
+        if (len(log) > n0 or getattr(fn, '_kfv_resplit', False)) and q in inv:
+            # the function changed shape (unrolled table loop, split temporaries): bring the result back to the
+            # inventory spelling (single-use temporaries, comparison orientation, argument style)
+            fn._kfv_resplit = False  # type: ignore[attr-defined]
+            try:
+                localnames.restore_function(q, fn, log)
+                _fold(fn, keep)
+                _drop_else(fn)
+            except Exception as e:  # noqa: BLE001
+                log.append(f'{q}: re-canonicalisation after unrolling skipped ({type(e).__name__}: {e})')
     ast.fix_missing_locations(tree)
     return tree, log
